@@ -90,6 +90,20 @@ def symbolic(world, replace_invert=True, extra=None):
             if "linalg" in m.__dict__ and isinstance(m.__dict__["linalg"], types.ModuleType):
                 setg(m, "linalg", _Stub(invert_matrix=MX.invert_matrix_contract,
                                         invert_diagonal=mods["utils.linalg"].invert_diagonal))
+    tm = mods.get("experimental.truncated_measure")
+    if tm is not None and not isinstance(tm, Exception):
+        setg(tm, "scan", _scan_unrolled)
+        setg(tm, "normal_pdf", S._unary("phi"))
+        setg(tm, "normal_cdf", S._unary("Phi"))
+        setg(tm, "binom", _binom_contract)
+    ms = mods.get("experimental.misc")
+    if ms is not None and not isinstance(ms, Exception):
+        setg(ms, "norm", _Stub(pdf=S._unary("phi"), cdf=S._unary("Phi"), logcdf=lambda x: S.log(S._unary("Phi")(x))))
+    ac = mods.get("approximate_conditional")
+    if ac is not None and not isinstance(ac, Exception):
+        for nm in ("normal_pdf", "normal_cdf"):
+            if nm in ac.__dict__:
+                setg(ac, nm, S._unary("phi" if nm.endswith("pdf") else "Phi"))
     for (mod, name, val) in (extra or []):
         setg(mod, name, val)
     try:
@@ -116,3 +130,29 @@ def _lax_stub():
     def stop_gradient(x):
         return x
     return _Stub(stop_gradient=stop_gradient)
+
+
+def _scan_unrolled(f, init, xs, length=None):
+    """lax.scan with a literal trip count: unrolled (DESIGN §2.1)"""
+    from . import shim as S
+    S.W.count("scan(unrolled)")
+    if not isinstance(xs, S.Stack):
+        raise S.ShimUnsupported("lax.scan over a symbolic range")
+    carry, ys = init, []
+    for k in xs.rows:
+        carry, y = f(carry, k)
+        ys.append(y)
+    return carry, S.Stack(ys)
+
+
+def _binom_contract(k, i):
+    """contract of experimental.misc.binom: the exact binomial coefficient (body checked by bounded enumeration)"""
+    import math
+    from . import shim as S
+
+    def one(kk, ii):
+        kk, ii = int(kk), int(ii)
+        return math.comb(kk, ii) if 0 <= ii <= kk else 0
+    if isinstance(i, S.Stack):
+        return S.Stack([one(k, r) for r in i.rows])
+    return one(k, i)
